@@ -93,6 +93,13 @@ def h_labels_unclustered(I, fi):
     res = I.call_function(fi, [data, TreeM()], {"clusters": None}, force_inline=True)
     gens = P.ghost.get("generic_indices", [])
     dsl.cover(I, "labels.unclustered")
+    if len(gens) == 1 and not P.feasible(P.z(m) != 0):
+        # no labelled point at all (a tree object without any data): only the fill-in pass runs
+        dsl.cover(I, "labels.nothing-labelled")
+        j = gens[0]
+        rows = res.rows if isinstance(res, DF) and isinstance(res.rows, list) else None
+        P.check("labels.nothing-labelled", rows is not None and not log["registered"] and len(log["asked"]) == 1 and (log["asked"][0].idx - j).is_zero() and len(rows) <= 1, "without labelled points only the fill-in pass adds records", kind="post")
+        return
     P.check("labels.two-passes", len(gens) == 2, "one pass over the labelled points, one over the input data", kind="post")
     if len(gens) != 2:
         return
@@ -124,7 +131,7 @@ def h_labels_unclustered(I, fi):
             "the table is DataFrame(records) sorted by clone and mutation", kind="post")
 
 
-COVERS = ["labels.unclustered", "labels.fill-in", "labels.no-fill-in"]
+COVERS = ["labels.unclustered", "labels.fill-in", "labels.no-fill-in", "labels.nothing-labelled"]
 
 
 def verify_all(ctx, repo, prop="C12"):
